@@ -187,7 +187,7 @@ func (tc Toolchain) CompileCLI(dir string, o CompileOpts) *CompileResult {
 	args = append(args, entry)
 	to := o.Timeout
 	if to == 0 {
-		to = 30 * time.Second
+		to = defaultCompileTimeout()
 	}
 	ctx, cancel := context.WithTimeout(context.Background(), to)
 	defer cancel()
@@ -310,4 +310,13 @@ func WriteProject(dir string, files map[string]string) error {
 		}
 	}
 	return nil
+}
+
+func defaultCompileTimeout() time.Duration {
+	if v := os.Getenv("VERIF_COMPILE_TIMEOUT"); v != "" {
+		if d, err := time.ParseDuration(v); err == nil {
+			return d
+		}
+	}
+	return 30 * time.Second
 }
